@@ -221,6 +221,15 @@ theorem reserved_good {s : State} (hg : GoodStore H crc s) (size : Nat) : GoodSt
 theorem released_good {s : State} (hg : GoodStore H crc s) (size : Nat) : GoodStore H crc (released s size) :=
   hg.of_eq (release_entries _ _) rfl rfl
 
+theorem writeDisk_good {s : State} (hs : s.cfg.skipVerify = false) (hg : GoodStore H crc s)
+    (name : Name) (size : Nat) (att : Option Attempt) (pl : Int) :
+    GoodStore H crc (writeDisk H crc s name size att pl).1 := by
+  unfold writeDisk
+  have h1 := writeCacheFile_good hs hg name att false 0
+  split
+  · exact genMeta_good h1 name pl
+  · exact h1
+
 theorem writeBlob_good {s : State} (hs : s.cfg.skipVerify = false) (hg : GoodStore H crc s)
     (name : Name) (size : Nat) (atts : List Attempt) (pl : Int) :
     GoodStore H crc (writeBlob H crc s name size atts pl).1 := by
@@ -229,9 +238,9 @@ theorem writeBlob_good {s : State} (hs : s.cfg.skipVerify = false) (hg : GoodSto
   · split
     · rename_i s2 h2
       exact addToMem_good (s := reserved s size) hs (reserved_good hg size) name _ size pl s2 h2
-    · exact writeCacheFile_good (s := released (reserved s size) size) hs
-        (released_good (reserved_good hg size) size) name _ true pl
-  · exact writeCacheFile_good hs hg name _ true pl
+    · exact writeDisk_good (s := released (reserved s size) size) hs
+        (released_good (reserved_good hg size) size) name size _ pl
+  · exact writeDisk_good hs hg name size _ pl
 
 theorem writeCacheFile_cfg (s : State) (name : Name) (att : Option Attempt) (addMeta : Bool) (pl : Int) :
     (writeCacheFile H crc s name att addMeta pl).1.cfg = s.cfg := by
@@ -325,6 +334,13 @@ theorem addToMem_cfg {s s' : State} {name : Name} {att : Option Attempt} {size :
             · cases h
             · cases h; rfl
 
+theorem writeDisk_cfg (s : State) (name : Name) (size : Nat) (att : Option Attempt) (pl : Int) :
+    (writeDisk H crc s name size att pl).1.cfg = s.cfg := by
+  unfold writeDisk
+  split
+  · rw [genMeta_cfg, writeCacheFile_cfg]
+  · rw [writeCacheFile_cfg]
+
 theorem writeBlob_cfg (s : State) (name : Name) (size : Nat) (atts : List Attempt) (pl : Int) :
     (writeBlob H crc s name size atts pl).1.cfg = s.cfg := by
   unfold writeBlob
@@ -332,8 +348,8 @@ theorem writeBlob_cfg (s : State) (name : Name) (size : Nat) (atts : List Attemp
   · split
     · rename_i s2 h2
       exact (addToMem_cfg h2).trans rfl
-    · rw [writeCacheFile_cfg]; rfl
-  · rw [writeCacheFile_cfg]
+    · rw [writeDisk_cfg]; rfl
+  · rw [writeDisk_cfg]
 
 theorem writeDrainItem_cfg (s0 : State) (it : DrainItem) : (writeDrainItem H crc s0 it).1.cfg = s0.cfg := by
   unfold writeDrainItem
@@ -400,6 +416,12 @@ theorem writeCacheFile_mismatch {s : State} (hs : s.cfg.skipVerify = false) {nam
     · by_cases hf : a.fail = true
       · simp [hf]
       · simp [hf, verifyOK_false_of_ne hs hne]
+
+theorem writeDisk_mismatch {s : State} (hs : s.cfg.skipVerify = false) {name : Name} {att : Option Attempt}
+    (hm : ∀ a, att = some a → a.fail = true ∨ H a.data ≠ name) (size : Nat) (pl : Int) :
+    writeDisk H crc s name size att pl = (s, .write) ∨ writeDisk H crc s name size att pl = (s, .verify) := by
+  unfold writeDisk
+  rcases writeCacheFile_mismatch (crc := crc) hs hm false 0 with h | h <;> rw [h] <;> simp
 
 theorem addToMem_mismatch {s : State} (hs : s.cfg.skipVerify = false) {name : Name} {att : Option Attempt}
     (hm : ∀ a, att = some a → a.fail = true ∨ H a.data ≠ name) (size : Nat) (pl : Int) :
@@ -497,7 +519,15 @@ theorem origin_apply_good {s : OriginBlob.State} (h : GoodV H crc s.cas) (o : OO
         · have h1 := h.step (.writeBlob n sz atts s.pl)
           simp only [CAStoreMem.apply] at h1
           split
-          · rename_i c hc; rw [hc] at h1; exact h1
+          · rename_i c hc
+            rw [hc] at h1
+            split
+            · exact h1
+            · have h2 := GoodV.step (c := c) h1 (.genMeta n s.pl)
+              simp only [CAStoreMem.apply] at h2
+              split
+              · rename_i c' hc'; rw [hc'] at h2; exact h2
+              · rename_i c' r hc'; rw [hc'] at h2; exact h2
           · rename_i c r hc; rw [hc] at h1; exact h1
   | overwriteMeta n pl =>
     simp only [OriginBlob.apply, OriginBlob.overwriteMeta]
